@@ -77,6 +77,8 @@ CanDo(S, action, bucket) ==
   \/ [a |-> "Admin", b |-> ""] \in S
   \/ [a |-> action, b |-> ""] \in S
   \/ bucket # "" /\ ([a |-> action, b |-> bucket] \in S \/ [a |-> "Admin", b |-> bucket] \in S)
+  \* a trailing-star pattern: "b*" matches every bucket of this universe (b1, b2, b3)
+  \/ bucket # "" /\ ([a |-> action, b |-> "b*"] \in S \/ [a |-> "Admin", b |-> "b*"] \in S)
 Permits(S, rt, bucket) == \E a \in Need(rt) : CanDo(S, a, bucket)
 
 Signed == {"V2H", "V2P", "V4H", "V4P", "V4S", "POSTPOL"}
@@ -207,10 +209,13 @@ RECURSIVE SetToSeq(_)
 SetToSeq(S) == IF S = {} THEN <<>> ELSE LET x == CHOOSE y \in S : TRUE IN <<x>> \o SetToSeq(S \ {x})
 Small(S) == {x \in SUBSET S : Cardinality(x) \in 1..2}
 Stmts == {[eff |-> e, acts |-> SetToSeq(a), res |-> SetToSeq(rs)] : e \in {"Allow", "Deny"}, a \in Small(PolActs), rs \in Small(PolRes)}
+Stmts1 == {[eff |-> e, acts |-> <<a>>, res |-> <<rs>>] : e \in {"Allow", "Deny"}, a \in PolActs, rs \in PolRes}
+(* documents of one statement (1-2 actions x 1-2 resources) and of two single-action, single-resource
+   statements; the check adds seeded pairs of full statements *)
 GenPol ==
   /\ hist = <<>>
   /\ \/ \E s \in Stmts : hist' = <<[ev |-> "pol", stmts |-> <<s>>]>>
-     \/ MaxOps >= 2 /\ \E s \in Stmts, t \in Stmts : hist' = <<[ev |-> "pol", stmts |-> <<s, t>>]>>
+     \/ MaxOps >= 2 /\ \E s \in Stmts1, t \in Stmts1 : hist' = <<[ev |-> "pol", stmts |-> <<s, t>>]>>
 PolSpec == Init /\ [][GenPol]_vars
 (* a reference translation satisfies the rule (the rule is satisfiable and not vacuous) *)
 RefOut(stmts) ==
